@@ -434,9 +434,12 @@ def _check_class(ctx: Ctx, cls: ClassInfo, idx_bin: int) -> None:
             wev = make_evaluator(repo, evm)
             wenv = Env()
             env = Env()
-            ctx.need(len(rv.args) == len(kern.params),
+            from sa.srcmodel import bound_args
+            kargs = bound_args(rv, list(kern.params))
+            ctx.need(set(kargs) == set(kern.params),
                      f"{cls.name}.evaluate passes all kernel arguments")
-            for p, a in zip(kern.params, rv.args):
+            for p in kern.params:
+                a = kargs[p]
                 if isinstance(a, ast.Name) and a.id == xname:
                     env.vars[p] = ("array", "y")
                 else:
